@@ -9,6 +9,7 @@ let runners : (string * (string -> string list -> string list list -> (string ->
   ("C02", Drv_c02.run);
   ("C16", Drv_c16.run);
   ("C14", Drv_c14.run);
+  ("C15", Drv_c15.run);
 ]
 
 (* optional third argument: the harness output for the same cases (for models that need
